@@ -356,29 +356,31 @@ func casfsWorker(args []string) error {
 }
 
 type cfOneCase struct {
+	J     int      `json:"j"`
 	Nodes []cfNode `json:"nodes"`
 	Q     []int    `json:"q"`
 }
 
+// casfsOne: Open of one path per job, one answer line per job, flushed at once: when the process dies the parent
+// attributes the death to the first job without an answer and starts a new process for the jobs after it.
 func casfsOne(args []string) error {
 	cli.InitLogging(cli.MinVerbosity)
 	// The default limit is 1 GB: an unbounded recursion would still overflow, only much slower (the collector
 	// rescans the ever deeper stack) and at the price of 1 GB per case. The verdict (crash, not an error) is the same.
-	debug.SetMaxStack(4 << 20)
-	debug.SetGCPercent(-1)
-	b, err := os.ReadFile(args[0])
-	if err != nil {
-		return err
-	}
-	var c cfOneCase
-	if err := json.Unmarshal(b, &c); err != nil {
-		return err
-	}
-	tree, cas := cfBuild(c.Nodes)
-	fsys := remotefs.New(cas, tree, "")
-	emit(cfOpen(fsys, cfPath(c.Q)))
-	flush()
-	return nil
+	debug.SetMaxStack(1 << 20)
+	return readCases(args[0], func(raw json.RawMessage) error {
+		var c cfOneCase
+		if err := json.Unmarshal(raw, &c); err != nil {
+			return err
+		}
+		tree, cas := cfBuild(c.Nodes)
+		fsys := remotefs.New(cas, tree, "")
+		o := cfOpen(fsys, cfPath(c.Q))
+		o["j"] = c.J
+		emit(o)
+		flush()
+		return nil
+	})
 }
 
 func cfTail(s string, n int) string {
@@ -388,41 +390,70 @@ func cfTail(s string, n int) string {
 	return s
 }
 
-// cfRunOne runs one risky Open in its own process.
-func cfRunOne(self, dir string, seq int, c *cfCase, q []int) map[string]any {
-	file := filepath.Join(dir, fmt.Sprintf("one-%d.json", seq))
-	b, _ := json.Marshal(cfOneCase{Nodes: c.Nodes, Q: q})
-	if err := os.WriteFile(file, b, 0o644); err != nil {
-		return map[string]any{"infra": err.Error()}
-	}
-	defer os.Remove(file)
-	ctx, cancel := context.WithTimeout(context.Background(), 90*time.Second)
-	defer cancel()
-	cmd := exec.CommandContext(ctx, self, "casfs-one", file)
-	var stdout, stderr strings.Builder
-	cmd.Stdout, cmd.Stderr = &stdout, &stderr
-	err := cmd.Run()
-	if ctx.Err() == context.DeadlineExceeded {
-		return map[string]any{"hang": true, "ok": false}
-	}
-	if err != nil {
+// cfRunBatch runs risky Opens outside the parent: a subprocess answers job after job; if it dies or hangs the
+// first unanswered job is the one that killed it, and the rest is given to a new subprocess.
+func cfRunBatch(self, dir string, seq int, jobs []cfOneCase, results map[int]map[string]any, mu *sync.Mutex) {
+	for attempt := 0; len(jobs) > 0; attempt++ {
+		file := filepath.Join(dir, fmt.Sprintf("one-%d-%d.ndjson", seq, attempt))
+		var sb strings.Builder
+		for _, j := range jobs {
+			b, _ := json.Marshal(j)
+			sb.Write(b)
+			sb.WriteByte('\n')
+		}
+		if err := os.WriteFile(file, []byte(sb.String()), 0o644); err != nil {
+			mu.Lock()
+			results[jobs[0].J] = map[string]any{"infra": err.Error()}
+			mu.Unlock()
+			return
+		}
+		ctx, cancel := context.WithTimeout(context.Background(), 120*time.Second)
+		cmd := exec.CommandContext(ctx, self, "casfs-one", file)
+		cmd.Env = append(os.Environ(), "GOTRACEBACK=none") // "fatal error: stack overflow" is enough; unwinding the dead stack is slow
+		var stdout, stderr strings.Builder
+		cmd.Stdout, cmd.Stderr = &stdout, &stderr
+		err := cmd.Run()
+		timedOut := ctx.Err() == context.DeadlineExceeded
+		cancel()
+		os.Remove(file)
+		done := 0
+		mu.Lock()
+		for _, line := range strings.Split(stdout.String(), "\n") {
+			if !strings.HasPrefix(line, "{") {
+				continue
+			}
+			var o map[string]any
+			if json.Unmarshal([]byte(line), &o) != nil {
+				continue
+			}
+			results[int(o["j"].(float64))] = o
+			done++
+		}
+		mu.Unlock()
+		if done >= len(jobs) {
+			return
+		}
+		if err == nil {
+			mu.Lock()
+			results[jobs[done].J] = map[string]any{"infra": "casfs-one ended without answering: " + cfTail(stderr.String(), 300)}
+			mu.Unlock()
+			return
+		}
 		msg := stderr.String()
 		first := msg
 		if i := strings.Index(msg, "\n\n"); i > 0 {
 			first = msg[:i]
 		}
-		return map[string]any{"crash": true, "ok": false, "exit": cmd.ProcessState.ExitCode(), "stderr": cfTail(first, 400),
-			"stack_overflow": strings.Contains(msg, "stack overflow") || strings.Contains(msg, "goroutine stack exceeds")}
-	}
-	var o map[string]any
-	for _, line := range strings.Split(stdout.String(), "\n") {
-		if strings.HasPrefix(line, "{") {
-			if json.Unmarshal([]byte(line), &o) == nil {
-				return o
-			}
+		mu.Lock()
+		if timedOut {
+			results[jobs[done].J] = map[string]any{"hang": true, "ok": false}
+		} else {
+			results[jobs[done].J] = map[string]any{"crash": true, "ok": false, "exit": cmd.ProcessState.ExitCode(), "stderr": cfTail(first, 400),
+				"stack_overflow": strings.Contains(msg, "stack overflow") || strings.Contains(msg, "goroutine stack exceeds")}
 		}
+		mu.Unlock()
+		jobs = jobs[done+1:]
 	}
-	return map[string]any{"infra": "no observation from casfs-one: " + cfTail(stderr.String(), 300)}
 }
 
 // cfRunChunk runs a chunk of cases in a worker subprocess; a case the worker died on is reported as such and
@@ -547,15 +578,24 @@ func casfsParent(args []string) error {
 			}
 		}
 	}
-	results := make([]map[string]any, len(jobs))
-	for i, j := range jobs {
+	results := map[int]map[string]any{}
+	const batch = 40
+	for k := 0; k*batch < len(jobs); k++ {
+		end := (k + 1) * batch
+		if end > len(jobs) {
+			end = len(jobs)
+		}
+		one := []cfOneCase{}
+		for i := k * batch; i < end; i++ {
+			one = append(one, cfOneCase{J: i, Nodes: jobs[i].c.Nodes, Q: jobs[i].c.Qs[jobs[i].qi].Q})
+		}
 		wg.Add(1)
 		sem <- struct{}{}
-		go func(i int, j job) {
+		go func(k int, one []cfOneCase) {
 			defer wg.Done()
 			defer func() { <-sem }()
-			results[i] = cfRunOne(self, dir, i, j.c, j.c.Qs[j.qi].Q)
-		}(i, j)
+			cfRunBatch(self, dir, k, one, results, &mu)
+		}(k, one)
 	}
 	wg.Wait()
 	for i, j := range jobs {
@@ -565,7 +605,11 @@ func casfsParent(args []string) error {
 		}
 		qs := o["qs"].([]any)
 		if j.qi < len(qs) {
-			qs[j.qi].(map[string]any)["open"] = results[i]
+			r := results[i]
+			if r == nil {
+				r = map[string]any{"infra": "no answer for a risky query"}
+			}
+			qs[j.qi].(map[string]any)["open"] = r
 			qs[j.qi].(map[string]any)["subprocess"] = true
 		}
 	}
